@@ -274,51 +274,39 @@ theorem malformed_is_rejected (dim? : Option Nat) (X : Mat α) :
       · exact absurd this.2 (not_le.mpr h)
     simp [validFuzzy, this]
 
-/-
-Full statement for ART2A (false of the code, finding C18-a; BayesianART's
-`cov_init` shape test is written in the same order, finding C18-b):
+/-- `ART2A.validate_data` (range test, then the `alpha` bound, then the
+assignment of `dim_`) leaves no trace when it rejects: it is `runValidate` of
+the predicate `validART2A`. -/
+theorem validate_art2a_eq (alpha : α) (s : DimState) (X : Mat α) :
+    runValidateART2A alpha s X = runValidate (validART2A alpha) s X := by
+  unfold runValidateART2A runValidate validART2A
+  cases hd : s.dim with
+  | none =>
+    by_cases hu : inUnit X = true <;> by_cases ha : art2AlphaOk alpha (width X) = true <;>
+      simp [hu, ha]
+  | some d =>
+    by_cases hu : inUnit X = true <;> by_cases hw : (width X == d) = true <;> simp [hu, hw]
 
-  theorem reject_is_noop_art2a (alpha) body s X
-      (hrej : (runValidateART2A alpha s.1 X).2 = false) :
-      checked (runValidateART2A alpha) body s X = (s, .error .assert)
-
-`ART2A.check_dimensions` assigns `self.dim_ = X.shape[1]` and only then asserts
-`alpha <= 1/sqrt(dim_)`.
--/
-
-/-- ART2A, fresh module, `alpha = 9/10`, one row of width 4 (`alpha²·4 > 1`): the
-call is rejected but `dim_ = 4` stays behind, and the very same data is accepted
-by the next call. -/
-theorem reject_is_noop_art2a_counterexample :
-    let X : Mat Rat := [[1/2, 1, 0, 0]]
-    let s : DimState := {}
-    (runValidateART2A (9/10 : Rat) s X).2 = false ∧
-    (runValidateART2A (9/10 : Rat) s X).1 = { dim := some 4 } ∧
-    (runValidateART2A (9/10 : Rat) s X).1 ≠ s ∧
-    (runValidateART2A (9/10 : Rat) (runValidateART2A (9/10 : Rat) s X).1 X).2 = true := by
-  norm_num [runValidateART2A, inUnit, art2AlphaOk, width]
-  exact Option.some_ne_none 4
-
-/-- ART2A: rejection is atomic whenever a width is already remembered, or the
-`alpha` bound holds for the width of the rejected matrix (then the rejection
-came from the range test, which runs before `check_dimensions`). -/
-theorem reject_is_noop_art2a_partial {τ ρ : Type} (alpha : α)
+/-- ART2A entry points: a matrix that is out of range, of a width other than
+the remembered one, or — on the first call — too wide for `alpha`
+(`alpha²·width > 1`) is rejected before any model state changes (full strength
+since /repo 9901844; the former `…_counterexample` is gone with the defect). -/
+theorem reject_is_noop_art2a {τ ρ : Type} (alpha : α)
     (body : DimState × τ → Mat α → (DimState × τ) × ρ) (s : DimState × τ) (X : Mat α)
-    (hextra : s.1.dim.isSome = true ∨ art2AlphaOk alpha (width X) = true)
     (hrej : (runValidateART2A alpha s.1 X).2 = false) :
     checked (runValidateART2A alpha) body s X = (s, .error .assert) := by
-  have hs : (runValidateART2A alpha s.1 X).1 = s.1 := by
-    unfold runValidateART2A at hrej ⊢
-    split
-    · cases hd : s.1.dim with
-      | none =>
-        rcases hextra with h | h
-        · simp [hd] at h
-        · rename_i hu
-          simp [hu, hd, h] at hrej
-      | some d => simp
-    · rfl
-  simp only [checked, hrej, Bool.false_eq_true, if_false, hs]
+  refine reject_is_noop _ ?_ body s X hrej
+  intro s' X' h
+  rw [validate_art2a_eq] at h ⊢
+  exact validate_pure_on_reject (validART2A alpha) s' X' h
+
+/-- non-vacuity: fresh ART2A, one row of width 4.  `alpha = 9/10` (`alpha²·4 > 1`):
+rejected and `dim_` still absent; `alpha = 1/2` (`alpha²·4 = 1`, the boundary):
+accepted and `dim_ = 4` recorded. -/
+example :
+    runValidateART2A (9/10 : Rat) {} [[1/2, 1, 0, 0]] = ({}, false) ∧
+    runValidateART2A (1/2 : Rat) {} [[1/2, 1, 0, 0]] = ({ dim := some 4 }, true) := by
+  norm_num [runValidateART2A, inUnit, art2AlphaOk, width]
 
 /-! ### constant columns: what the code does -/
 
